@@ -85,7 +85,7 @@ def shard(args):
                 mops = [(hxb.REQ if side == 'req' else hxb.RES, msg)]
                 mops = mops if style == 'whole' else rechunk(r, mops, style)
                 ops = pre + mops + post + [(hxb.CLOSE, None)]
-                cfg = {'PERSONALITY': r.randrange(10), 'DUMP': hxb.DUMP_TX, 'REQ_DECOMP': 1, 'LZMA_LAYERS': 1, 'TX_HOOKS': r.randrange(2)}
+                cfg = {'PERSONALITY': r.randrange(10), 'DUMP': hxb.DUMP_TX, 'REQ_DECOMP': 1, 'LZMA_LAYERS': 1, 'TX_HOOKS': r.randrange(3)}
                 key = (i << 5) | c
                 cases.append((key, cfg, ops))
                 meta[key] = (None, cfg, ops, style + ':coded:%s:%s' % (side, coding))
@@ -124,20 +124,20 @@ def shard(args):
                 ops += [(hxb.REQ, body[b2:] + req1)] if r.chance(0.5) else ([(hxb.REQ, body[b2:])] if b2 < n else []) + [(hxb.REQ, req1)]
                 ops += [(hxb.RES, res1), (hxb.CLOSE, None)]
                 body, n = body_, n_
-                cfg = {'PERSONALITY': r.randrange(10), 'DUMP': hxb.DUMP_TX | hxb.DUMP_BODY, 'TX_HOOKS': r.randrange(2)}
+                cfg = {'PERSONALITY': r.randrange(10), 'DUMP': hxb.DUMP_TX | hxb.DUMP_BODY, 'TX_HOOKS': r.randrange(3)}
                 key = (i << 5) | c
                 cases.append((key, cfg, ops))
                 meta[key] = (None, cfg, ops, 'early_final:%s:%s:%s' % ('expect' if expect else 'plain', status.split()[0], 'chunked' if chunked else 'cl'), body,
                              len(wire) - 2 if chunked else n)
             continue
         big = (i % 8 == 0)
-        ex = grammar.gen_exchange(seed * 1000003 + i, {'res_fold': True, 'max_body': 70000 if big and i % 64 == 0 else (3000 if big else 200), 'multipart': False, 'max_n': 3})
+        ex = grammar.gen_exchange(seed * 1000003 + i, {'res_fold': True, 'max_body': 70000 if big and i % 64 == 0 else (3000 if big else 200), 'multipart': False, 'max_n': 3, 'p_interim': 0.08})
         r = grammar.Rng(seed * 7919 + i)
         kind, base = oracle.schedules(ex, r, r.pick(['seq', 'pipelined', 'coalesced']))
         for c in range(CHUNKINGS if not big else 4):
             style = r.pick(['cuts', 'cuts', 'cuts', 'bytes', 'fixed']) if c else 'whole'
             ops = base if style == 'whole' else rechunk(r, base, style)
-            cfg = {'PERSONALITY': r.randrange(10), 'DUMP': hxb.DUMP_TX | hxb.DUMP_BODY, 'TX_HOOKS': r.randrange(2), 'AUTO_DESTROY': 1 if r.chance(0.1) else 0}
+            cfg = {'PERSONALITY': r.randrange(10), 'DUMP': hxb.DUMP_TX | hxb.DUMP_BODY, 'TX_HOOKS': r.randrange(3), 'AUTO_DESTROY': 1 if r.chance(0.1) else 0}
             key = (i << 5) | c
             cases.append((key, cfg, ops))
             meta[key] = (ex, cfg, ops, style)
